@@ -319,7 +319,18 @@ def callable_record(e):
 def index_gir(gir_text):
     root = scanpipe.gir_tree(gir_text)
     ns = root.find(qn('namespace'))
-    out = {'function': {}, 'callback': {}, 'record': {}, 'constant': {}, 'alias': {}}
+    out = {'function': {}, 'callback': {}, 'record': {}, 'constant': {}, 'alias': {}, 'copies': {}}
+    # EVERY emitted copy of a callable, keyed by its C symbol: the namespace-level <function> (possibly carrying
+    # moved-to) and the <function>/<method>/<constructor> nested in <record>/<union>/<class>/<interface>/
+    # <enumeration>/<bitfield>/<glib:boxed>.  -> [(where, element)]
+    for parent in [ns] + list(ns):
+        for e in parent:
+            if lname(e) in ('function', 'method', 'constructor') and e.get(qn('c:identifier')):
+                if parent is ns:
+                    where = 'namespace function' + (' moved-to=%s' % e.get('moved-to') if e.get('moved-to') else '')
+                else:
+                    where = '%s of <%s %s>' % (lname(e), lname(parent), parent.get('name') or parent.get(qn('glib:name')))
+                out['copies'].setdefault(e.get(qn('c:identifier')), []).append((where, e))
     for e in ns:
         t = lname(e)
         if t == 'function':
@@ -613,12 +624,21 @@ class Judge(object):
                 self.fail('nullable:' + kkey, 'untyped pointer %s in %s position is not nullable' % (json.dumps(t), pos),
                           {'kind': 'type', 'case': case})
 
-    def arrangement(self, case, rec):
-        """case: {'params': [{'kind','name'}...]}; rec: callable_record of the real GIR"""
+    def arrangement(self, case, rec, where=None):
+        """case: {'params': [{'kind','name'}...], 'owner': None|'rec'|'uni'}; rec: callable_record of ONE emitted
+        copy of the callable in the real GIR (`where` says which copy when the scanner wrote several)"""
         ps = case['params']
         kinds = [p['kind'] for p in ps]
-        akey = 'arr:' + json.dumps([[p['kind'], p['name'], p.get('v', 0)] for p in ps]) + (':cb' if case.get('callback') else '')
+        akey = 'arr:' + json.dumps([[p['kind'], p['name'], p.get('v', 0)] for p in ps]) + (':cb' if case.get('callback') else '') \
+            + (':owner=%s' % case['owner'] if case.get('owner') else '')
         rp = {'kind': 'arr', 'case': case}
+        if where is not None:
+            real_fail = self.fail
+            self.fail = lambda k, w, r: real_fail(k, '%s [emitted copy: %s]' % (w, where), r)
+            try:
+                return self.arrangement(case, rec)
+            finally:
+                del self.fail
         n = len(ps)
         throws = n > 0 and kinds[-1] == 'err'
         if rec['throws'] != throws:
@@ -762,7 +782,23 @@ def kind_type(kind, v):
     return [T('int'), T('guint'), P(T('char', Q_CONST))][v % 3]
 
 
-def arrangement_case(kinds, rot, variants, callback=False):
+# un-annotated functions whose symbol is prefixed by the name of a plain (non-GObject) record / union of the
+# namespace while neither a method (first parameter is never FooRec*/FooUni*: no parameter kind has that type) nor a
+# constructor (they return void): MainTransformer._pair_static_method emits them TWICE, as a namespace-level
+# <function moved-to=...> and as a static <function> inside the <record>/<union>.  The statement speaks about the
+# declaration, so every emitted copy is judged.
+OWNERS = {'rec': 'FooRec', 'uni': 'FooUni'}
+
+
+def arrangement_symbol(i, case):
+    if case.get('callback'):
+        return 'FooZc%d' % i
+    if case.get('owner'):
+        return 'foo_%s_za_%d' % (case['owner'], i)
+    return 'foo_za_%d' % i
+
+
+def arrangement_case(kinds, rot, variants, callback=False, owner=None):
     ps = []
     nud = nop = 0
     for i, k in enumerate(kinds):
@@ -778,7 +814,10 @@ def arrangement_case(kinds, rot, variants, callback=False):
         else:
             name = '%s%d' % (k, i)
         ps.append({'kind': k, 'name': name, 'v': v})
-    return {'params': ps, 'callback': callback}
+    c = {'params': ps, 'callback': callback}
+    if owner:
+        c['owner'] = owner
+    return c
 
 
 def arrangement_cases(ctx):
@@ -798,6 +837,19 @@ def arrangement_cases(ctx):
             kinds = tuple(rng.choice(KINDS) for _ in range(5))
             variants = [rng.randrange(12) for _ in kinds] if rng.random() < 0.15 else None
             cases.append(arrangement_case(kinds, rng.randrange(6), variants))
+    # functions named after a plain record / union (static function + moved-to twin): every arrangement of <= 3
+    # (thorough 4) parameters for both owners (deterministic), + a seeded sample of longer ones, mostly ending in GError**
+    for owner in sorted(OWNERS):
+        for L in range(0, ctx.n(3, 4) + 1):
+            for kinds in itertools.product(KINDS, repeat=L):
+                variants = [rng.randrange(12) for _ in kinds] if rng.random() < 0.15 else None
+                cases.append(arrangement_case(kinds, rng.randrange(6), variants, owner=owner))
+    for _ in range(ctx.n(600, 6000)):
+        kinds = [rng.choice(KINDS) for _ in range(rng.randint(4, 6))]
+        if rng.random() < 0.6:
+            kinds[-1] = 'err'
+        variants = [rng.randrange(12) for _ in kinds] if rng.random() < 0.3 else None
+        cases.append(arrangement_case(tuple(kinds), rng.randrange(6), variants, owner=rng.choice(sorted(OWNERS))))
     # callback typedefs (the user_data rule of _create_callback + pass 3 on callbacks)
     for L in range(0, ctx.n(3, 4) + 1):
         for kinds in itertools.product(KINDS, repeat=L):
@@ -808,9 +860,21 @@ def arrangement_cases(ctx):
 def arrangement_decl(i, case):
     params = [{'name': p['name'], 'type': kind_type(p['kind'], p.get('v', 0))} for p in case['params']]
     if case.get('callback'):
-        return {'d': 'typedef', 'name': 'FooZc%d' % i,
+        return {'d': 'typedef', 'name': arrangement_symbol(i, case),
                 'type': {'k': 'ptr', 'to': {'k': 'func', 'ret': {'k': 'void'}, 'params': params}}}
-    return {'d': 'function', 'name': 'foo_za_%d' % i, 'ret': {'k': 'void'}, 'params': params}
+    return {'d': 'function', 'name': arrangement_symbol(i, case), 'ret': {'k': 'void'}, 'params': params}
+
+
+def arrangement_copies(idx, i, case):
+    """every copy of the callable of arrangement case i that the real pipeline wrote -> [(where or None, element)]"""
+    sym = arrangement_symbol(i, case)
+    if case.get('callback'):
+        e = idx['callback'].get(sym)
+        return [] if e is None else [(None, e)]
+    copies = idx['copies'].get(sym, [])
+    if len(copies) == 1 and not case.get('owner'):
+        return [(None, copies[0][1])]
+    return list(copies)
 
 
 # ------------------------------------------------------------------ running the real pipeline
@@ -1051,31 +1115,42 @@ def check_arrangements(ctx, cnt, judge, cases, env, samples):
         model = ctx.driver.batch(reqs)
         for j, (c, mo) in enumerate(zip(chunk, model)):
             i = base + j
-            e = idx['callback'].get('FooZc%d' % i) if c.get('callback') else idx['function'].get('foo_za_%d' % i)
+            copies = arrangement_copies(idx, i, c)
             kinds = [p['kind'] for p in c['params']]
-            cnt.hit('arr:%s:len%d' % ('callback' if c.get('callback') else 'function', len(kinds)))
+            cnt.hit('arr:%s:len%d' % ('callback' if c.get('callback') else
+                                      ('function-of-' + c['owner'] if c.get('owner') else 'function'), len(kinds)))
             cnt.case(['a', c], nontrivial=any(k in ('cb', 'ar') for k in kinds) or 'err' in kinds)
-            if e is None:
+            if not copies:
                 ctx.broken.append('pipeline wrote nothing for arrangement %r' % (kinds, ))
                 continue
-            rec = callable_record(e)
+            if c.get('owner'):
+                # how the scanner exposed the type-prefixed function (not judged: the statement does not say where a
+                # function is placed; it is the generator's reach that is measured here)
+                cnt.hit('arr:owner:%s:copies=%d' % (c['owner'], len(copies)))
+                if len(copies) > 1 and kinds and kinds[-1] == 'err':
+                    cnt.hit('arr:owner:twin-with-trailing-error')
             mr = render_callable(mo)
-            if rec != mr:
-                ndis += 1
-                disagree.append(c)
-                if ndis <= 3:
-                    ctx.broken.append('correspondence c02.callable differs: case=%s impl=%s model=%s'
-                                      % (json.dumps(c), json.dumps(rec), json.dumps(mr)))
-            judge.arrangement(c, rec)
-            for p in rec['params']:
-                if p['closure'] is not None:
-                    cnt.hit('arr:closure-assigned')
-                if p['destroy'] is not None:
-                    cnt.hit('arr:destroy-assigned')
-                if p['scope']:
-                    cnt.hit('arr:scope:' + p['scope'])
-            if rec['throws']:
-                cnt.hit('arr:throws')
+            differs = False
+            for where, e in copies:
+                # the model's output is a function of the declaration alone, hence the same for every copy
+                rec = callable_record(e)
+                if rec != mr and not differs:
+                    differs = True
+                    ndis += 1
+                    disagree.append(c)
+                    if ndis <= 3:
+                        ctx.broken.append('correspondence c02.callable differs: case=%s%s impl=%s model=%s'
+                                          % (json.dumps(c), ' copy=%s' % where if where else '', json.dumps(rec), json.dumps(mr)))
+                judge.arrangement(c, rec, where)
+                for p in rec['params']:
+                    if p['closure'] is not None:
+                        cnt.hit('arr:closure-assigned')
+                    if p['destroy'] is not None:
+                        cnt.hit('arr:destroy-assigned')
+                    if p['scope']:
+                        cnt.hit('arr:scope:' + p['scope'])
+                if rec['throws']:
+                    cnt.hit('arr:throws')
         samples.append({'kind': 'arr', 'case': chunk[-1]})
     return disagree
 
@@ -1405,7 +1480,7 @@ def run(ctx):
                 if k != ps[i]['kind']:
                     kinds = [p['kind'] for p in ps]
                     kinds[i] = k
-                    neigh.append(arrangement_case(kinds, 0, None, callback=c.get('callback', False)))
+                    neigh.append(arrangement_case(kinds, 0, None, callback=c.get('callback', False), owner=c.get('owner')))
         check_arrangements(ctx, cnt, judge, neigh, env, [])
         cnt.hit('search:neighbours', len(neigh))
         evaluations += len(neigh)
@@ -1430,7 +1505,10 @@ def run(ctx):
                 '(all spellings in thorough); (2) every arrangement of <= 4 parameters + 4500 seeded ones of length 5 '
                 '(thorough: every arrangement of <= 6) over {callback, '
                 'user-data-like gpointer, other gpointer, GDestroyNotify, GAsyncReadyCallback, GError**, int} as '
-                'functions, <= 3 (4) as callback typedefs, with seeded alternative spellings/names; (3) '
+                'functions, <= 3 (4) as callback typedefs, with seeded alternative spellings/names; the same arrangements '
+                '(every one of <= 3 (4) parameters + 600 (6000) seeded longer ones, mostly ending in GError**) as functions '
+                'named after the plain record FooRec / union FooUni (foo_rec_*, foo_uni_*: static function + moved-to '
+                'twin), EVERY emitted copy of the callable being compared with the model and judged; (3) '
                 '_get_transfer_default on real ast objects for position x direction x caller-allocates x 60 type '
                 'classes x const x constructor; (4) seeded valid/malformed ctype strings through _canonicalize_ctype '
                 'and create_type_from_ctype_string.  Every case: real pipeline output vs model, and the statement '
@@ -1477,10 +1555,10 @@ def replay(ctx, rep):
         c = r['case']
         res = run_scan(ctx, [arrangement_decl(0, c)])
         idx = index_gir(res['gir'])
-        e = idx['callback'].get('FooZc0') if c.get('callback') else idx['function'].get('foo_za_0')
-        rec = callable_record(e)
-        print('arrangement %s -> %s' % (json.dumps(c), json.dumps(rec)))
-        judge.arrangement(c, rec)
+        for where, e in arrangement_copies(idx, 0, c):
+            rec = callable_record(e)
+            print('arrangement %s%s -> %s' % (json.dumps(c), ' [copy: %s]' % where if where else '', json.dumps(rec)))
+            judge.arrangement(c, rec, where)
     elif r['kind'] in ('transfer', 'typecontainer'):
         check_transfer_direct(ctx, cnt, judge, base, [])
     elif r['kind'] == 'out':
